@@ -1,6 +1,7 @@
 import Yomm2.SpecExec
 import Yomm2.Model.World
 import Yomm2.Proofs.Bridge
+import Yomm2.Proofs.Walk
 /-!
 # C01 — a call runs the definition more specific than every other applicable one
 -/
@@ -33,6 +34,28 @@ theorem C01_table_correct (c : Bridge.Ctx) (m : MethodC) (mr : MethodRec) (hm : 
       Selects c.proj c.reg mr.defs ks (Bridge.outcomeOf mr.defs cell) ∧
       (∀ i, cell = .defn i → ∃ df, mr.defs[i]? = some df) :=
   Bridge.dispatch_table_correct c m mr hm cs ks gis hk hloc
+
+/-- **C01, the walk (PARTIAL)**: if the v-table of each virtual argument's class holds at the method's
+    slot for that parameter the entry (method, parameter, group of the class) — what `update` writes —
+    then `method::resolve` on the flattened dispatch data returns the function word of the cell the
+    specification prescribes: for every arity, every placement of non-virtual parameters, and
+    independently of where `dispatch_data` is laid out. What remains: the v-table content itself
+    (slots in range and exclusive, C04) and the lookup of the v-table pointers (C05 / policies). -/
+theorem C01_walk_correct (c : Bridge.Ctx) (cp : Compiled) (inst : Installed) (hinst : install cp = .ok inst)
+    (hgraph : cp.graph = c.g) (mi : Nat) (m : MethodC) (mr : MethodRec) (hmm : Bridge.MethodMatches c m mr)
+    (hm : cp.methods[mi]? = some m) (ho : cp.outs[mi]? = some (dispatchMethod cp.graph m))
+    (args : List (Kind × Int)) (cs ks gis : List Nat)
+    (hk : Forall₂ (fun i k => c.key i = some k) cs ks)
+    (hloc : Cells.LocatedAll c.g m 0 m.vp cs gis)
+    (hlen : (Walk.virtPtrs args).length = m.vp.length) (hpos : 0 < m.vp.length)
+    (hf : ∀ p v g, (Walk.virtPtrs args)[p]? = some v → gis[p]? = some g → Walk.ArgFact cp inst mi p v g) :
+    ∃ cell, resolve inst mi args = .ok (Word.fn mi cell) ∧
+      Selects c.proj c.reg mr.defs ks (Bridge.outcomeOf mr.defs cell) := by
+  obtain ⟨cell, conc, hcell, hsel, _⟩ := Bridge.dispatch_table_correct c m mr hmm cs ks gis hk hloc
+  refine ⟨cell, ?_, hsel⟩
+  have hgl := (Cells.locatedAll_length c.g m 0 m.vp cs gis hloc).2
+  rw [← hgraph] at hcell
+  exact Walk.resolve_correct cp inst hinst mi m hm ho args gis hlen hgl hpos hf (cell, conc) hcell
 
 /-- every acceptable class has a group, so the theorem above covers every legal call -/
 theorem every_acceptable_class_is_located (g : Graph) (m : MethodC) (dim v cl : Nat) (h : cl ∈ g.cov.get v) :
